@@ -776,28 +776,57 @@ def run_coq_points(c, lemmas):
             'From Coq Require Import Reals.\nFrom Interval Require Import Tactic.\nFrom FendV Require Import Elem.PointDefs.\nOpen Scope R_scope.\n')
     nhead = head.count('\n')
 
+    import subprocess
+
+    def coqc_file(vf, live, timeout):
+        """-> ('ok', None) | ('line', k) | ('abnormal', text)"""
+        with open(vf, 'w') as fh:
+            fh.write(head)
+            for (nm, st, tac) in live:
+                fh.write('Lemma %s : %s. Proof. %s. Qed.\n' % (nm, st, tac))
+        # address-space limit and wall-clock limit: a wrong implementation value can send interval
+        # evaluation into huge computations (seen with a seeded mutant: 58 GB)
+        cmd = 'ulimit -v 6291456; exec coqc -Q %s FendV -w -all %s' % (COQ, vf)
+        try:
+            pr = subprocess.run(['/bin/sh', '-c', cmd], cwd=d, timeout=timeout, stdout=subprocess.PIPE, stderr=subprocess.STDOUT)
+        except subprocess.TimeoutExpired:
+            return ('abnormal', 'timeout after %ds' % timeout)
+        out = pr.stdout.decode('utf-8', 'replace')
+        if pr.returncode == 0:
+            return ('ok', None)
+        m = re.search(r'line (\d+), characters', out)
+        if m:
+            k = int(m.group(1)) - nhead - 1
+            if 0 <= k < len(live):
+                return ('line', k)
+        return ('abnormal', out[-300:])
+
+    def certify(tag, live, timeout, depth=0):
+        """returns the names of the lemmas that could not be certified"""
+        failed = []
+        live = list(live)
+        vf = os.path.join(d, 'points_%s.v' % tag)
+        for _attempt in range(15):
+            if not live:
+                return failed
+            st, info = coqc_file(vf, live, timeout)
+            if st == 'ok':
+                return failed
+            if st == 'line':
+                failed.append(live[info][0])
+                del live[info]
+                continue
+            # killed / timed out / unparsable: isolate by halving
+            if len(live) == 1:
+                return failed + [live[0][0]]
+            h = len(live) // 2
+            return (failed + certify(tag + 'a', live[:h], max(60, timeout // 2), depth + 1)
+                    + certify(tag + 'b', live[h:], max(60, timeout // 2), depth + 1))
+        return failed + [l_[0] for l_ in live]
+
     def run_chunk(arg):
         ci, ch = arg
-        failed = []
-        live = list(ch)
-        vf = os.path.join(d, 'points_%d.v' % ci)
-        for _attempt in range(15):
-            with open(vf, 'w') as fh:
-                fh.write(head)
-                for (nm, st, tac) in live:
-                    fh.write('Lemma %s : %s. Proof. %s. Qed.\n' % (nm, st, tac))
-            rc, out = sh(['coqc', '-Q', COQ, 'FendV', '-w', '-all', vf], cwd=d, timeout=1800)
-            if rc == 0:
-                return failed
-            m = re.search(r'line (\d+), characters', out)
-            if not m:
-                return failed + [l_[0] for l_ in live] + ['!' + out[-300:]]
-            k = int(m.group(1)) - nhead - 1
-            if not (0 <= k < len(live)):
-                return failed + [l_[0] for l_ in live]
-            failed.append(live[k][0])
-            del live[k]
-        return failed + [l_[0] for l_ in live]
+        return certify(str(ci), ch, 400)
 
     with ThreadPoolExecutor(max_workers=NPROC) as ex:
         res = list(ex.map(run_chunk, list(enumerate(chunks))))
@@ -961,10 +990,11 @@ def check_l2(c, pi_model):
             nm = 'pt_%d_%d' % (i, ci)
             cl = claims_for(F, r_, ref if ref not in (float('inf'), float('-inf')) else 2.0, p, negate=not pre_ok)
             tac = 'pt'
-            if p.fn == 'tanh' and p.xabs >= 20 and pre_ok:
-                tac = 'pt_tanh_big'
             if len(cl) > 1:
-                tac = 'split; ' + tac
+                tac = 'split; pt'
+            if p.fn == 'tanh' and p.xabs >= 20:
+                # exp of a huge argument must never reach interval evaluation
+                tac = 'pt_tanh_big' if pre_ok else 'pt_tanh_big_not'
             lemmas.append((nm, ' /\\ '.join('(%s)' % x for x in cl), tac))
             plan[nm] = (i, 'ok' if pre_ok else 'bad')
         verdict[i] = okpre
